@@ -32,7 +32,7 @@ var c06Groups = [][]string{{"bool", "b", "é"}, {"str", "s", "string"}, {"inc", 
 // long spellings of every name and alias, the short spelling (one dash, which means the same in all three modes for a
 // one-letter name without attached text) of some one-letter aliases including a multibyte one, the help option and its aliases
 var c06Alpha = []string{"--bool", "--b", "--str", "--s", "--string", "--int", "--inc", "--i2", "--list", "--l", "--opt", "--o", "--sc", "--nb", "--n", "v", "5", "p", "--zz", "c", "w", "--str=w",
-	"-b", "-é", "-s", "-o", "--help", "-?", "--h", "-ä", "--pre=x", "--defs=Key=v", "--D=k=w", "--nums", "-9", "--9", "--st", "--str=a,b"}
+	"-b", "-é", "-s", "-o", "--help", "-?", "--h", "-ä", "--pre=x", "--defs=Key=v", "--D=k=w", "--nums", "-9", "--9", "--st", "--str=a,b", "-zb", "-bzn"} // ... bundles with an unknown letter in front of / between known ones
 
 // c06Key returns the option key a token spells (long form, or short form of a one-letter key) and whether it is such a token.
 func c06Key(t string) (string, bool) {
@@ -128,8 +128,8 @@ func init() {
 	parserJudges["C06"] = judgeC06
 	register(&Check{
 		ID:        "C06",
-		QuickSecs: 300, ThoroSecs: 2400,
-		Rule: "input-space exploration: every argv of length <= L-1 over 38 tokens and of length L over the first 22 of them (every name and alias of 8 options of 6 kinds, half declared through *Var, one bound to an environment variable, one marked SetCalled, one with a multibyte one-letter alias; short spellings of one-letter aliases; the help option of HelpCommand and its aliases; values, positional, unknown option, command, UnsetOptions wrapper command) x 3 modes x environment {unset, valid, text that is not valid for the bound bool}; " +
+		QuickSecs: 900, ThoroSecs: 2400,
+		Rule: "input-space exploration: every argv of length <= L-1 over 40 tokens and of length L over the first 22 of them (every name and alias of 8 options of 6 kinds, half declared through *Var, one bound to an environment variable, one marked SetCalled, one with a multibyte one-letter alias; short spellings of one-letter aliases; the help option of HelpCommand and its aliases; values, positional, unknown option, command, UnsetOptions wrapper command) x 3 modes x environment {unset, valid, text that is not valid for the bound bool}; " +
 			"absolute: values (pointer, *Var target and Value() agree), Called, CalledAs compared with the reference model, untouched options keep defaults; metamorphic: replacing any occurrence of a name by any other alias of the same option changes nothing but CalledAs; " +
 			"distinct_nontrivial = distinct in-domain cases",
 		Assume: []string{"argv longer than L and other option sets are not covered"},
@@ -228,8 +228,8 @@ func init() {
 	}
 	register(&Check{
 		ID:        "C12",
-		QuickSecs: 300, ThoroSecs: 300,
-		Rule: "complete product: 7 option kinds (bool, string, int, float64 and the optional-value forms) x 2-3 defaults x *Var or pointer form x 32 environment texts (unset, empty, valid, invalid, mixed case booleans, padded, equal to default, equal to the command-line value) x 11 command-line forms (absent, --n=v, --n v, -n v, bare --n, twice, inside a command, before an UnsetOptions wrapper command, the empty string as a separate value token) x 3 modes x {option declared at the root, option declared on a command, variable set after New() but before the declaration}; " +
+		QuickSecs: 900, ThoroSecs: 300,
+		Rule: "complete product: 7 option kinds (bool, string, int, float64 and the optional-value forms) x 2-3 defaults x *Var or pointer form x 32 environment texts (unset, empty, valid, invalid, mixed case booleans, padded, equal to default, equal to the command-line value) x 14 command-line forms (absent, --n=v, --n v, -n v, bare --n, twice, inside a command, before an UnsetOptions wrapper command, the empty string as a separate value token, attached values with a comma) x 3 modes x {option declared at the root, option declared on a command, variable set after New() but before the declaration, GetEnv followed by SetCalled(true)}; " +
 			"value, Called and CalledAs compared with the three-way precedence rule of the reference model, and again after a second Parse of an empty command line on the same object (nothing may change); distinct_nontrivial = distinct in-domain cases",
 		Assume: []string{"other environment texts are not covered; invalid numeric environment text leaves Called unspecified (zone U11) and only the value is compared"},
 		Run: func(c *RunCtx) {
@@ -264,13 +264,14 @@ func init() {
 				for _, od := range kdef.defs {
 					for _, isVar := range []bool{false, true} {
 						for mode := 0; mode < 3; mode++ {
-							for variant := 0; variant < 3; variant++ { // 0: option at the root; 1: option declared on a command; 2: variable set after New()
+							for variant := 0; variant < 4; variant++ { // 0: option at the root; 1: option declared on a command; 2: variable set after New(); 3: GetEnv followed by SetCalled(true)
 								idx++
 								if !c.mine(idx) {
 									continue
 								}
 								o := od
 								o.Name, o.Kind, o.Var, o.Env = "n", kdef.k, isVar, "VERIF_C12_VAR"
+								o.SetCalled = variant == 3
 								def := &ph.Def{Mode: mode, Unknown: 0, LateEnv: variant == 2, Root: ph.CmdDef{Name: "prog", Opts: []ph.OptDef{o, {Name: "other", Kind: ph.Bool}}, Cmds: []*ph.CmdDef{{Name: "c"}, {Name: "w", Unset: true, Unknown: 3}}}}
 								if variant == 1 {
 									def = &ph.Def{Mode: mode, Unknown: 0, Root: ph.CmdDef{Name: "prog", Opts: []ph.OptDef{{Name: "other", Kind: ph.Bool}}, Cmds: []*ph.CmdDef{{Name: "c", Opts: []ph.OptDef{o}}}}}
@@ -280,7 +281,7 @@ func init() {
 								var clis [][]string
 								clis = append(clis, []string{}, []string{"--n"}, []string{"c", "--n"}, []string{"--other"}, []string{"w"}, []string{"w", "-x"})
 								if kdef.k != ph.Bool {
-									clis = append(clis, []string{"--n=" + v}, []string{"--n", v}, []string{"-n", v}, []string{"--n=" + v, "--n=" + v}, []string{"c", "--n=" + v}, []string{"--n", ""}, []string{"--n", "", "--other"})
+									clis = append(clis, []string{"--n=" + v}, []string{"--n", v}, []string{"-n", v}, []string{"--n=" + v, "--n=" + v}, []string{"c", "--n=" + v}, []string{"--n", ""}, []string{"--n", "", "--other"}, []string{"--n=" + v + "," + v}, []string{"--n=,"}, []string{"--n=,", "p"})
 								} else {
 									clis = append(clis, []string{"-n"}, []string{"--n", "--n"})
 								}
